@@ -235,6 +235,20 @@ def _misc(_):
         d.evaluate(x1, 0, noisy=False)
         if not np.array_equal(x1, x0):
             bad.append({"kind": "input-mutated", "problem": "Decoupled(BraninCurrin)", "x_before": x0.tolist(), "x_after": x1.tolist()})
+    # one point given as a 1-D array: the value of that point, as one row (noiseless: exactly the row of the 2-D call)
+    for x in (np.array([0.3, 0.0]), np.array([0.5, 0.25]), np.array([1.0, 1.0])):
+        x0 = x.copy()
+        try:
+            f1 = np.asarray(p.evaluate(x, noisy=False))
+            f2 = np.asarray(p.evaluate(x0.reshape(1, -1), noisy=False))
+            if f1.shape != (1, 2) or not np.array_equal(f1, f2) or not np.array_equal(x, x0):
+                bad.append({"kind": "continuous-1d", "problem": "BraninCurrin", "x": x0.tolist(), "got": f1.tolist(), "expected": f2.tolist()})
+            with mock.patch("numpy.random.normal", return_value=np.array([[1.0, -2.0]])):
+                y1 = np.asarray(p.evaluate(x0.copy(), noisy=True))
+            if y1.shape != (1, 2) or not np.allclose(y1 - f2, 0.1 * np.array([[1.0, -2.0]]), rtol=1e-9, atol=0):
+                bad.append({"kind": "continuous-1d-noise", "problem": "BraninCurrin", "x": x0.tolist(), "noise": (y1 - f2).tolist(), "expected": [[0.1, -0.2]]})
+        except Exception as e:
+            bad.append({"kind": "continuous-1d", "problem": "BraninCurrin", "x": x0.tolist(), "got": repr(e)[:200], "expected": "one row"})
     if type(get_continuous_problem("BraninCurrin", 0.01)).__name__ != "BraninCurrin":
         bad.append({"kind": "continuous-shape", "problem": "get_continuous_problem"})
     for name, n_, din, dout in (("Test", 32, 4, 2), ("SNW", 206, 3, 2), ("DiskBrake", 128, 4, 2), ("VehicleSafety", 500, 5, 3)):
